@@ -17,11 +17,11 @@ import (
 
 func TestMain(m *testing.M) {
 	kit.Main(m, "C02", "fault_enumeration",
-		"scenario = (key state in {cold, sk-only, warm-held, warm-fresh, stale, expired, ik-revoked, sk-revoked, rotated by another process (IK / SK+IK)}) x (drawn cache configuration, precision, expiry, interval); "+
+		"scenario = (key state in {cold, sk-only, warm-held, warm-fresh, stale, expired, ik-revoked, sk-revoked, rotated by another process (IK / SK+IK), region-suffixed process over a metastore holding the partition's un-suffixed keys}) x (drawn cache configuration, precision, expiry, interval); "+
 			"the metastore/KMS call sequence of the operation is recorded fault-free, then EVERY call index gets every applicable fault (store read error; store write error, false duplicate, false+error, error-after-write; KMS encrypt/decrypt error), "+
 			"and every pair of faults (second index enumerated against the sequence as it is after the first fault; sampled in the quick tier). Scenarios are rapid-drawn; positions are enumerated. "+
 			"Oracle at the instant Encrypt returns: a returned record's IK row and the SK row it names are in the store snapshot, and the reference decryptor given only the snapshot + KMS, and a fresh SDK factory, decrypt it to the payload; a failure returns an error and no record; "+
-			"after the faults stop the next encrypt and the decrypts succeed with the same guarantees; a decrypt under faults returns the payload or an error. One evaluation = one execution. "+
+			"after the faults stop the next encrypt and the decrypts succeed with the same guarantees, and the record objects the caller still holds from earlier encrypts are unchanged; a decrypt under faults returns the payload or an error. One evaluation = one execution. "+
 			"Non-trivial = the planned fault fired and the operation issued a further call or returned a record; distinct = distinct (state, cache class, fault positions+kinds, outcome)",
 		"faults are injected at the Metastore/KMS interface of a harness-owned insert-only store", "the reference decryptor written from the docs is correct")
 }
@@ -113,6 +113,10 @@ func runEncrypt(t *rapid.T, sc *world.FaultScenario) []kit.Call {
 	}
 	if msg := w.Store.CheckImmutable(); msg != "" {
 		fail(t, sc, "store rows changed: %s", msg)
+	}
+	// the record objects as the caller holds them (not a copy taken on return) still name the keys they were written under
+	if msg := w.ChangedRecord(); msg != "" {
+		fail(t, sc, "a returned record no longer names the keys it was encrypted under - nobody can decrypt what the caller holds: %s", msg)
 	}
 	record(sc, "encrypt", outcome, calls)
 	return calls
@@ -229,7 +233,10 @@ func useRealMetastore(t *rapid.T, sc *world.FaultScenario) {
 
 func TestEncryptFaults(t *testing.T) {
 	kit.Check(t, 200, 3200, func(t *rapid.T) {
-		sc := world.DrawScenario(t, world.KeyStates)
+		sc := world.DrawScenario(t, append(append([]string{}, world.KeyStates...), "legacy-unsuffixed"))
+		if sc.State == "legacy-unsuffixed" {
+			sc.Opt.Suffix = "us-west-2"
+		}
 		useRealMetastore(t, sc)
 		enumerate(t, sc, runEncrypt, kit.Pick(40, -1))
 	})
